@@ -106,9 +106,20 @@ def irdl_init(interp, self_obj, operands=(), result_types=(), properties=None, a
     F["properties"] = props
     F["attributes"] = attrs
     gdefs = [(n, d) for n, d in defs if d.kind == "region"]
-    regs = seq(regions)
-    for (n, d), r in zip(gdefs, regs):
-        F[n] = r
+    rentries_ = seq(regions)
+    regs = []
+    if len(gdefs) == len(rentries_):
+        for (n, d), r in zip(gdefs, rentries_):
+            if d.variadic or (d.optional and (r is None or is_seq(r))):
+                rs = seq(r)
+                F[n] = (rs[0] if rs else None) if d.optional else tuple(rs)
+                regs.extend(rs)
+            else:
+                F[n] = r
+                regs.append(r)
+    else:
+        for r in rentries_:
+            regs.extend(seq(r) if is_seq(r) else [r])
     for r in regs:
         if isinstance(r, Obj):
             r.fields["parent"] = self_obj
